@@ -53,6 +53,26 @@ class C08(Prop):
             retries = rng.choice([0, 1, 2, 3, 5])
             evs = [rng.choice(["tick", "tick", "stale", "confirm", "third", "narrow"]) for _ in range(rng.randrange(0, 9))]
             cases.append(self._case(rng, tbl, idx, size, retries, rng.random() < 0.5, evs, "random"))
+        # the call made through Device.set(name, displayed value) on SCALED numbers, the value held before being the raw value that is
+        # numerically equal to the displayed value requested (raw 2 held = 0.2 displayed, 2.0 requested = raw 20)
+        scaled = [(tbl, idx, d) for tbl, name in enumerate(param_impl.TABLES) if tbl in (0, 1, 2, 3, 4)
+                  for idx, d in enumerate(t[name]) if not d["switch"] and (d["multiplier"] != 1.0 or d["offset"] != 0)]
+        dev_cases = []
+        for _ in range(60 if tier == "quick" else 1200):
+            tbl, idx, d = rng.choice(scaled)
+            hi = 255 if d["size"] == 1 else 65535
+            req_raw = rng.randrange(1, hi + 1)
+            shown = round((req_raw - d["offset"]) * d["multiplier"], 6)
+            held = int(shown) if (0 <= int(shown) <= hi and int(shown) != req_raw and rng.random() < 0.7) else (req_raw + 1) % (hi + 1)
+            retries = rng.choice([1, 2])
+            evs = [rng.choice(["tick", "stale", "confirm"]) for _ in range(rng.randrange(0, 5))] + ["tick"] * (retries + 1)
+            events = [[0] if e == "tick" else [1, [held if e == "stale" else req_raw, 0, hi]] for e in evs]
+            dev_cases.append({"kind": "device-set", "tbl": tbl, "idx": idx, "triple": [held, 0, hi], "req": req_raw, "shown": shown,
+                              "retries": retries, "tracking": rng.random() < 0.5, "events": events, "sub": 0})
+        # the raw value of each displayed request by the Coq model (PrimFloat); cases where it is not the intended raw are dropped
+        from harness import coqeval
+        back = coqeval.eval_many([f"fe_to_raw {c['tbl']} {c['idx']} {coqeval.float_lit(float(c['shown']))}" for c in dev_cases], "C08d")
+        cases += [c for c, b in zip(dev_cases, back) if b[0] == 1 and b[1] == c["req"]]
         # the same histories on a real ecoMAX device: parameter created and every report delivered by ecoMAX-parameters response
         # frames (a stale report is then byte-identical to the frame that created the parameter)
         eco = [x for x in targets if x[0] in (0, 1)]
@@ -93,6 +113,10 @@ class C08(Prop):
                 c["_payloads"] = [list(model.call("enc_ecomax_params", [c["b0"], c["idx"], [[tr]]])) for tr in trs]
             outs, after, _ = vloop.run(param_impl.run_set_call_frames, c["tbl"], c["idx"], c["triple"], c["req"], c["retries"], 5.0,
                                        c["events"], c["tracking"], c["_payloads"])
+            return [outs, after]
+        if c["kind"] == "device-set":
+            outs, after, _ = vloop.run(param_impl.run_set_call, c["tbl"], c["idx"], c["triple"], c["shown"], c["retries"], 5.0,
+                                       c["events"], c["tracking"], c["sub"], True)
             return [outs, after]
         outs, after, _ = vloop.run(param_impl.run_set_call, c["tbl"], c["idx"], c["triple"], c["req"], c["retries"], 5.0,
                                    c["events"], c["tracking"], c["sub"])
